@@ -59,11 +59,12 @@ def srvSpec : SrvTree → Spec
   | .var v rest => .var (srvVarSpec v) (srvSpec rest)
   | .group n dims kids rest => .group n (dimsSpec dims (srvSpec kids)) (srvSpec rest)
 
-/-- the served variables in `children()` order, depth first, with their group paths -/
+/-- the served variables in `children()` order, depth first, with their group paths (as the client stores them:
+    `_quote` of the served group names — a served name is already a stored name, quoting it again changes nothing) -/
 def srvVars (path : List Str) : SrvTree → List (List Str × SrvVar)
   | .nil => []
   | .var v rest => (path, v) :: srvVars path rest
-  | .group n _ kids rest => srvVars (path ++ [n]) kids ++ srvVars path rest
+  | .group n _ kids rest => srvVars (path ++ [quoteName n]) kids ++ srvVars path rest
 
 /-- what the client must get back for a served variable: key/name/path, the parser's dtype string `dt`,
     the dimension names it was created with, the shape of its data -/
